@@ -635,3 +635,74 @@ def gen_check(quick, seed):
         add(use, True, "v2 function removed from the table", without=[f])
         add(use, True, "v2 same program with the full table")
     return out
+
+
+# ------------------------------------------------------------------------------------------------
+# C11 field-manipulating builtins
+
+# (name, literal, point value or NOSTORE)
+BVALS = [("int", "7", 7), ("float", "1.5", 1.5), ("bool", "true", True), ("strpad", '"  aXb \\t"', "  aXb \t"), ("strnum", '"12"', "12"),
+         ("strre", '"caat"', "caat"), ("strurl", '"a%20b+c"', "a%20b+c"), ("strbadurl", '"%zz"', "%zz"), ("strab", '"ab"', "ab"),
+         ("strjson", '"[1,\\"a\\",null]"', '[1,"a",null]'), ("strbadjson", '"nul"', "nul"), ("strempty", '""', ""), ("nil", "nil", None),
+         ("list", "[1, 2]", NOSTORE), ("map", '{"a": 1}', NOSTORE), ("strtrue", '"true"', "true"), ("strneg", '"-3"', "-3"), ("int0", "0", 0),
+         ("float0", "0.0", 0.0), ("strx", '"x"', "x")]
+SITUATIONS = ["var", "field", "tag", "var+field", "var+tag", "absent"]
+BCALLS = [
+    "add_key(k)", "add_key(k, 5)", 'add_key("k", 5)', "probe(get_key(k))", "set_tag(k)", 'set_tag(k, "v")', "set_tag(k, fi)", "set_tag(k, nosuch)",
+    "drop_key(k)", "rename(nk, k)", "rename(k, fi)", "rename(tg, k)", "rename(k, k)", "rename(nk, nosuch)",
+    'cast(k, "int")', 'cast(k, "float")', 'cast(k, "str")', 'cast(k, "bool")', 'cast(k, "string")',
+    "set_measurement(k)", "set_measurement(k, true)", "set_measurement(k, false)", 'set_measurement("lit")', 'set_measurement("lit", true)',
+    "probe(len(k))", "probe(load_json(k))", "x = load_json(k)\nprobe(x)",
+    'strfmt(k, "%s-%d-%v%%", "a", 1, true)', 'strfmt(nk, "[%v]", k)', 'strfmt(k, "plain")', 'strfmt(k, "%v %v", nosuch, 1 + nil)',
+    'printf("%s=%d;%v\\n", "a", 1, k)', "printf(k)", 'printf("%v", 1 + nil)', 'printf("")', "printf(fi)",
+    "trim(k)", 'trim(k, "ab")', 'trim(k, " \\t")', 'trim(k, "")', "uppercase(k)", 'replace(k, "a+", "X")', 'replace(k, "(", "X")',
+    'replace(k, "(\\\\d+)-(\\\\d+)", "$2-$1")', "url_decode(k)",
+]
+
+
+def gen_builtins(quick, seed):
+    rng = random.Random(seed)
+    out = []
+    n = 0
+    for call in BCALLS:
+        for sit in SITUATIONS:
+            for vn, vlit, vpt in BVALS:
+                if sit == "absent" and vn != "int":
+                    continue
+                if quick and rng.random() < 0.55 and sit not in ("absent",):
+                    continue
+                pt = {"meas": "m", "tags": {"tg": "tv"}, "fields": {"fi": 7, "fs": "sv", "message": "msg"}}
+                pre = []
+                if "field" in sit:
+                    if vpt is NOSTORE:
+                        continue
+                    pt["fields"]["k"] = vpt
+                if "tag" in sit:
+                    if not isinstance(vpt, str):
+                        continue
+                    pt["tags"]["k"] = vpt
+                if "var" in sit:
+                    # a variable shadowing the point key holds a different value of the same flavour
+                    pre.append("k = %s" % vlit)
+                    if "+" in sit and isinstance(vpt, str):
+                        pt["tags" if "tag" in sit else "fields"]["k"] = "other"
+                n += 1
+                reads = "probe(k)" if vn not in ("list", "map") or sit == "var" else "probe(1)"
+                text = "\n".join(pre + [call, reads])
+                out.append(ps("bi:%d" % n, text, pt=pt, tag="builtin %s; subject: %s %s" % (call.split("(")[0], sit, vn)))
+    # the `_` alias of message and attribute-expression / string-literal key spellings
+    for call in ["trim(_)", "uppercase(_)", "add_key(_, 1)", "drop_key(_)", 'cast(_, "int")', "set_tag(_)", "rename(nk, _)", "probe(get_key(_))",
+                 'replace(_, "a+", "X")', "url_decode(_)", 'strfmt(_, "%s", "z")', "set_measurement(_, true)", 'add_key(a.b, 1)', 'drop_key("fi")',
+                 'trim("fs")', 'cast("fi", "str")', "set_tag(a.b)", 'rename("nk", fi)', 'uppercase(a.b)']:
+        for msg in ["  caat ", "12", "a%20b"]:
+            n += 1
+            out.append(ps("bi:%d" % n, call + "\nprobe(message, _)", pt={"meas": "m", "tags": {"tg": "tv"},
+                          "fields": {"fi": 7, "fs": " sv ", "message": msg, "a.b": "dotted"}}, tag="key spellings and the _ alias"))
+    # sequences: the return register is not stale between calls; bystanders untouched
+    seqs = ["x = len(fs)\ny = get_key(nosuch)\nprobe(x, y)", "probe(len(fs), get_key(fi), len(nosuch))", "x = get_key(fi)\nadd_key(q, 1)\ny = x\nprobe(x, y)",
+            "x = load_json(\"1\")\ntrim(fs)\nprobe(x)", "cast(fi, \"str\")\nx = get_key(fi)\nprobe(x + \"!\")", "drop_key(fi)\nprobe(fi, get_key(fi))",
+            "fi = 100\ncast(fi, \"str\")\nprobe(fi, get_key(fi))", "fs = \"  v \"\ntrim(fs)\nprobe(fs, get_key(fs))"]
+    for t in seqs:
+        n += 1
+        out.append(ps("bi:%d" % n, t, pt=STD_PT, tag="builtin sequences"))
+    return out
